@@ -20,7 +20,8 @@ pub static NAMES: Scenario = Scenario {
 };
 
 fn pick_name(r: &mut impl Rng) -> String {
-    const BASE: [&str; 4] = ["net-a", "net-b", "net-c", "a.example"];
+    // ("template-net" is also what a builder whose name is set twice was called at first)
+    const BASE: [&str; 5] = ["net-a", "net-b", "net-c", "a.example", "template-net"];
     if r.gen_bool(0.75) {
         BASE[r.gen_range(0..BASE.len())].to_string()
     } else {
@@ -49,6 +50,8 @@ fn run(input: RunInput) -> ScenFuture {
             let mut spec = w.spec_exact(i as u8 + 1, cfg.clone());
             spec.name = p.clone();
             spec.alt_name = alt.clone();
+            // (the builder may have carried another name before it got this one: that name is gone)
+            spec.name_set_twice = r.gen_bool(0.3);
             let n = w.start_node(spec, Svc::echo(&w)).unwrap();
             subs.push(Subscription::new(&n.net).unwrap());
             nodes.push(n);
@@ -97,11 +100,20 @@ fn run(input: RunInput) -> ScenFuture {
         }
         // adversarial dialer: SNI and certificate name chosen independently
         let k_adv = w.key_for(9);
+        // (whatever the listeners' known-peer tables say about the adversary's key: being a known,
+        // even a preferred peer does not make a certificate for another network acceptable)
+        if r.gen_bool(0.4) {
+            for n in &nodes {
+                let affinity = if r.gen_bool(0.5) { anemo::types::PeerAffinity::High } else { anemo::types::PeerAffinity::Allowed };
+                n.net.known_peers().insert(anemo::types::PeerInfo { peer_id: public_key(&k_adv), affinity, address: vec![] });
+            }
+            w.probe("adversary-is-a-known-peer");
+        }
         let n_adv = w.param("adv_attempts", 0, 4);
         let mut retired = Vec::new();
         for k in 0..n_adv {
             let l = r.gen_range(0..2usize);
-            let pool: Vec<String> = vec![names[l].0.clone(), names[l].1.clone().unwrap_or_else(|| "zz-none".into()), names[1 - l].0.clone(), pick_name(&mut r), "unknown-net".into()];
+            let pool: Vec<String> = vec![names[l].0.clone(), names[l].1.clone().unwrap_or_else(|| "zz-none".into()), names[1 - l].0.clone(), pick_name(&mut r), "unknown-net".into(), "template-net".into()];
             // (one attempt in six sends no server name at all)
             let no_sni = r.gen_range(0..6) == 0;
             let sni = if no_sni { "<none>".to_string() } else { pool[r.gen_range(0..pool.len())].clone() };
